@@ -56,6 +56,21 @@ def cases(tier, seed):
         mode = rng.choice(['ok', 'ok', 'err', 'undef']) if nout == 2 and errsecond else 'ok'
         add_ext(params=ps, variadic=variadic, nout=nout, errsecond=errsecond, mode=mode, undef=rng.choice(['none', 'none', 'arg0']), ctx=rng.choice(['none', 'none', 'argc0', 'argc1']),
                 args=[rng.choice(ARGS) for _ in range(rng.randint(0, 5))], name=rng.choice(['ext', 'ext', 'f_1', 'Abc9', 'bad name', 'a-b', '']))
+    # argument errors name the function that was called, also after the same function has been called through another
+    # name (alias variable) earlier in the evaluation, and on every route to a call (named call, ~>, $map, partial, chain)
+    fns = [('sum', '[1,2]', '"x"'), ('max', '[1]', '"s"'), ('power', '2, 2', '"a", 2'), ('join', '["a"]', '5'), ('append', '1, 2', None), ('reverse', '[1]', None), ('abs', '1', '"q"'), ('sqrt', '4', 'true'),
+           ('keys', '{"a":1}', None), ('zip', '[1]', None), ('number', '"1"', '[1]'), ('floor', '1.5', '{}'), ('average', '[1]', '["a"]'), ('base64encode', '"a"', '5'), ('length', '"a"', '5'), ('uppercase', '"a"', '5')]
+    for fn, good, bad in fns:
+        for alias in ['alias', 'other', 'sum2']:
+            head = '$%s := $%s; $r := $%s(%s); ' % (alias, fn, alias, good)
+            if bad is not None and ',' not in bad:
+                for route in ['%s ~> $%s' % (bad, fn), '$map([%s], $%s)' % (bad, fn), '$%s(?)(%s)' % (fn, bad), '($%s ~> $string)(%s)' % (fn, bad), '$%s(%s)' % (fn, bad), '$%s(%s)' % (alias, bad), '[%s].$%s($)' % (bad, fn)]:
+                    n += 1
+                    out.append({'id': 'e%d' % n, 'kind': 'eval', 'expr': '(' + head + route + ')', 'input': {}, 'tags': ['errname']})
+            n += 1
+            out.append({'id': 'e%d' % n, 'kind': 'eval', 'expr': '(' + head + '$%s(1, 2, 3, 4, 5)' % fn + ')', 'input': {}, 'tags': ['errname']})
+            n += 1
+            out.append({'id': 'e%d' % n, 'kind': 'eval', 'expr': '(' + head + '[$%s(1, 2, 3, 4, 5, 6)]' % alias + ')', 'input': {}, 'tags': ['errname']})
     # registry histories (each runs in a fresh process)
     names = ['x1', 'x2', 'x3', 'random', 'millis', 'now']
     H = 120 if tier == 'quick' else 5000
